@@ -512,17 +512,8 @@ func runC19(cx *CheckCtx) {
 				switch {
 				case isCall(to, "contract.CreateStandardAccount") && to.Args[0].Op == "elem" && keySource(tb, to.Args[0].Args[0]) == "stored":
 					nLoop++
-					h := innermostLoop(s.Instr.Block())
-					if h == nil {
+					if ok, _ := everyElement(a, s, nil); !ok {
 						okTo = false
-					} else {
-						for _, e := range loopExits(h) {
-							if e.from != h {
-								if _, isPanic := e.to.Instrs[len(e.to.Instrs)-1].(*ssa.Panic); !isPanic {
-									okTo = false
-								}
-							}
-						}
 					}
 				case to.Op == "read":
 					k, _ := to.Args[0].BytesConst()
@@ -677,11 +668,7 @@ func runC19(cx *CheckCtx) {
 				h := innermostLoop(nodeT.Instr.Block())
 				okL := h != nil && !a.termInLoop(nodeT.Args[2], nodeT.Ctx, h)
 				if okL {
-					for _, e := range loopExits(h) {
-						if e.from != h {
-							okL = false
-						}
-					}
+					okL, _ = everyElement(a, nodeT, nil)
 				}
 				cx.decide(okL, "emit", "alphabet.Emit/all-nodes", "one transfer per Inner Ring key, loop-invariant amount, no early exit", "not every Inner Ring node receives the same share", nodeT.Where(w))
 			}
